@@ -106,6 +106,33 @@ def laws(stats: Stats, toks, rng, origin):
     if "parse" not in built:
         return
     p = built["parse"]
+    # L2, "only if": a different token sequence (a prefix, an extension, a sequence with one token dropped, doubled or the
+    # order reversed) gives an unequal pointer by every route, in both operand orders
+    variants = {}
+    if toks:
+        variants["prefix"] = toks[:-1]
+        variants["suffix"] = toks[1:]
+        variants["doubled-last"] = toks + toks[-1:]
+        variants["reversed"] = toks[::-1]
+        variants["root"] = []
+    variants["extended"] = toks + [rng.choice(ALPHA)]
+    variants["extended-empty"] = toks + [""]
+    variants["empty-first"] = [""] + toks
+    for vname, other in variants.items():
+        if other == toks:
+            continue
+        oroutes = routes(other)
+        for rb in ("parse", "from_parts", rng.choice(sorted(oroutes))):
+            try:
+                q = oroutes[rb]()
+            except Exception:  # noqa: BLE001  (reported when `other` is itself judged)
+                continue
+            ra = rng.choice(names)
+            stats.ev()
+            a = built[ra]
+            if a == q or q == a or not (a != q) or not (q != a):
+                stats.fail("unequal-tokens-equal-pointers:%s" % vname, case, "tokens %r (%s) and %r (%s): == gives %r / %r, != gives %r / %r" % (
+                    toks, ra, other, rb, a == q, q == a, a != q, q != a))
     # L5 / parent
     stats.ev()
     if toks:
